@@ -114,6 +114,7 @@ type Eng struct {
 	nfresh    int
 	obls      []*Obligation
 	fn        *ast.FuncDecl
+	lit       *ast.FuncLit // non-nil when the unit is a closure of fn
 	fnKey     string
 	con       *Contract
 	results   []types.Object // named or synthetic result objects
@@ -139,6 +140,8 @@ type Eng struct {
 	heapSorts    map[string]string
 	lastArgs     []*Val
 	retCount     map[string]int
+	localRefs    map[string]bool
+	counterHavocked map[string]bool
 }
 
 func (e *Eng) fresh(prefix string) string {
